@@ -140,6 +140,12 @@ def sortedByKeyM {α : Type} (f : α → M Nat) (r : Bool) (xs : List α) : M (L
   let keys ← xs.mapM f
   pure (((keys.zip xs).foldr (insertByKey r) []).map (·.2))
 
+/-- `d[k]` on a record that stands for a Python dict, where the spec of the translation gives the lookup as an `Option`
+    (`none` = the key is absent): `KeyError` -/
+def unwrapKey {α : Type} : Option α → M α
+  | some a => pure a
+  | none => throw .keyError
+
 /-- `[x for x in xs if c(x)]` where `c(x)` may raise: the conditions are evaluated in list order, the first exception propagates
     (nothing is returned), otherwise the elements whose condition is true, in order -/
 def filterM {α : Type} (c : α → M Bool) : List α → M (List α)
